@@ -61,6 +61,9 @@ type Action struct {
 	Hold bool   // AWriteEnd: park the caller at "tdc.exchange.written"
 	Tag  int    // AFeedReply / AFeedStray: payload tag
 	Wid  uint16 // AFeedStray / ASetQid
+	// Answer: AFeedStray synthesised by the executor — the server's answer to a re-sent datagram of call C that
+	// carried the id Wid instead of C's wire id (an honest server answers under the id it received)
+	Answer bool
 }
 
 type Ret struct {
@@ -186,6 +189,8 @@ type fakeConn struct {
 	readRel    chan struct{} // released by the executor
 	readParked chan struct{}
 	gated    map[int]bool
+	firstWid map[int]uint16
+	resent   []writeEv // re-sent datagrams (UDP), in order
 	gates    map[int]chan error
 	writeEvs chan writeEv
 	closeCh  chan struct{}
@@ -193,7 +198,7 @@ type fakeConn struct {
 }
 
 func newFakeConn(tcp bool) *fakeConn {
-	f := &fakeConn{tcp: tcp, gated: map[int]bool{}, gates: map[int]chan error{},
+	f := &fakeConn{tcp: tcp, gated: map[int]bool{}, firstWid: map[int]uint16{}, gates: map[int]chan error{},
 		writeEvs: make(chan writeEv, 64), closeCh: make(chan struct{}), readParked: make(chan struct{}, 1)}
 	f.cond = sync.NewCond(&f.mu)
 	return f
@@ -303,6 +308,9 @@ func (f *fakeConn) Write(p []byte) (int, error) {
 		f.gated[c] = true
 		gate = make(chan error, 1)
 		f.gates[c] = gate
+		f.firstWid[c] = m.Id
+	} else {
+		f.resent = append(f.resent, writeEv{c: c, wid: m.Id})
 	}
 	f.mu.Unlock()
 	if !first {
@@ -675,9 +683,17 @@ func Run(s Script, next func(v *View) *Action) (Script, []Obs, Final) {
 		}
 		return v
 	}
+	var forced []Action
+	resentSeen := 0
 	for {
 		v := view()
-		ap := next(v)
+		var ap *Action
+		if len(forced) > 0 && !parked {
+			ap = &forced[0]
+			forced = forced[1:]
+		} else {
+			ap = next(v)
+		}
 		if ap == nil {
 			if !parked {
 				break
@@ -685,7 +701,10 @@ func Run(s Script, next func(v *View) *Action) (Script, []Obs, Final) {
 			ap = &Action{K: AReaderGo} // a script never ends with the reader parked: its hand-over is part of the history
 		}
 		a := *ap
-		if !v.Applicable(a) {
+		if !a.Answer && !v.Applicable(a) {
+			continue
+		}
+		if a.Answer && (v.Closed || v.ReadErr) {
 			continue
 		}
 		s.Actions = append(s.Actions, a)
@@ -784,6 +803,14 @@ func Run(s Script, next func(v *View) *Action) (Script, []Obs, Final) {
 					cr.replied = true
 				}
 			}
+			if a.Answer {
+				// whoever holds that wire id gets it
+				for _, x := range calls {
+					if x.hasWid && x.wid == wid && (x.st == csInWrite || x.st == csHeld || x.st == csWaiting) {
+						x.replied = true
+					}
+				}
+			}
 			fc.feed(replyFrame(s.TCP, wid, a.Tag))
 			frameAfterSend = true
 			staleWaiting = false
@@ -878,6 +905,21 @@ func Run(s Script, next func(v *View) *Action) (Script, []Obs, Final) {
 			}
 		case ASleep:
 			time.Sleep(1150 * time.Millisecond)
+			// A re-sent datagram must carry the wire id of its first transmission. One that does not is answered by
+			// the server under the id it carries: that answer (to the re-sender's question) is fed next.
+			fc.mu.Lock()
+			rs := append([]writeEv(nil), fc.resent[resentSeen:]...)
+			resentSeen = len(fc.resent)
+			first := map[int]uint16{}
+			for c, w := range fc.firstWid {
+				first[c] = w
+			}
+			fc.mu.Unlock()
+			for _, ev := range rs {
+				if ev.wid != first[ev.c] {
+					forced = append(forced, Action{K: AFeedStray, C: ev.c, Wid: ev.wid, Tag: 900000 + ev.c, Answer: true})
+				}
+			}
 		case ARunt:
 			rb := make([]byte, a.Tag)
 			if a.Tag >= 2 {
